@@ -234,7 +234,9 @@ class AstToSqlVisitor(visitor.NodeVisitor):
         # x AND y AND z
         if isinstance(node.left, ast.BoolOp) and node.left.op != node.op:
             left = f"({left})"
-        if isinstance(node.right, ast.BoolOp) and node.right.op != node.op:
+        # A BoolOp on the right-hand side was grouped explicitly in the query
+        # (the operators are left-associative), keep that grouping:
+        if isinstance(node.right, ast.BoolOp):
             right = f"({right})"
 
         return f"{left} {op} {right}"
